@@ -2,7 +2,7 @@ import time, vf
 PID = "C05"
 H = vf.VERIF + "/checks/C05/harness.cpp"
 SCHED = [vf.VERIF + "/engine/sched/sched.cpp", vf.VERIF + "/engine/sched/log_stub.cpp"]
-REPO_SRCS = ["base/catch_throw.cpp", "base/backtrace.cpp"]
+REPO_SRCS = ["base/catch_throw.cpp", "base/backtrace.cpp", "event"]      # event: the real epoll loop of scenarios 200/201
 # (scenario, min, max).  Scripts (harness.cpp): 0 submit+status, 1 cancel, 2 three tasks two priorities, 3 retirement + stale token of a finished task,
 # 4 cancel/status racing the pick, 5 cleanup idle pool then re-initialise, 6 queue then cleanup, 7 cancel in the middle of one priority,
 # 8 initialize on a ready pool / invalid arguments / cleanup with queued+executing work / re-initialise with min 0 / stale tokens,
@@ -12,10 +12,12 @@ POOL = [(0,0,1),(0,1,1),(0,1,2),(1,1,1),(1,0,1),(1,0,2),(2,1,1),(2,0,2),(2,2,2),
         (8,1,1),(8,0,1),(8,0,2),(8,2,2),(10,0,1),(10,1,1),(10,0,2),(11,1,1),(11,0,1),(50,0,1),(56,1,1),(56,0,2)]
 # work thread: 100..102 as 0..2, 103 explicit per-task loop next to the default loop, 104 body submits a task, 105 no default loop, 150+k = destructor only
 WT = [(100,0,1),(101,0,1),(102,0,1),(103,0,1),(104,0,1),(105,0,1),(150,0,1),(151,0,1)]
+# 200 / 201: pool / work thread handing completion callbacks to the REAL epoll loop while it is not running, then the loop runs
+REAL = [(200,0,2),(200,1,1),(201,0,1)]
 HALF_DEADLINE = {(8,0,2),(8,2,2),(10,0,2),(56,0,2)}      # large at the thorough bounds: they get half the deadline so the tier's wall time stays bounded
 SPUR = {"s0_0_1", "s0_1_2", "s2_1_1", "s6_1_1", "s8_0_1", "s100_0_1", "s102_0_1"}      # configurations of the spurious-wake-up lane
 def cmds(exe, bound, tagp, only, dl):
-    order = sorted(POOL + WT, key=lambda s: (-s[2], s[0]))      # two-worker configurations first (longest jobs first)
+    order = sorted(POOL + WT + REAL, key=lambda s: (-s[2], s[0]))      # two-worker configurations first (longest jobs first)
     c = [("%s:s%d_%d_%d" % ((tagp,) + s), [exe, str(s[0]), str(s[1]), str(s[2]), str(bound)],
           {"VERIF_DEADLINE_S": str(dl // 2)} if (s in HALF_DEADLINE and dl > 200) else None) for s in order]
     return [x for x in c if not only or x[0].split(":")[1] == only]
@@ -39,14 +41,14 @@ def main(tier, args):
                    "%d scenario x (min,max) configurations (scripts of initialize [also on a ready pool and with invalid arguments], execute through both the && and the const& overloads "
                    "with priorities -9..7 incl. both boundary levels, getTaskStatus/cancel [also with the stale token of a finished or dropped task], snapshot, loop drain, "
                    "a task body that itself submits and queries a task, cleanup with queued/executing work followed by re-initialisation with fewer resident workers, "
-                   "cleanup() or the destructor alone as the end; WorkThread with default, explicit per-task and no default loop); "
+                   "cleanup() or the destructor alone as the end; WorkThread with default, explicit per-task and no default loop; pool and work thread handing callbacks to the REAL epoll loop while it is not running); "
                    "preemptions+deviations <= %d (plain build), <= %d (ASan/UBSan build, task objects de-pooled), <= %d (ThreadSanitizer under the scheduler: every explored schedule is race-checked); 7 configurations again with one spurious condition-variable wake-up per execution as a further deviation kind (bound 1 quick, 2 thorough); "
                    "a state = one complete schedule; outcomes = distinct (answers, per-task counts). Oracle per schedule against the harness's own record of accepted/started/finished/cancelled: "
                    "exactly-once on a worker, callback once on its loop's thread after the body, answers consistent in both directions, pick order by (priority, submission) decided from the submitted priorities, "
-                   "bodies <= max, nothing runs or starts and no thread other than main is alive once cleanup()/destructor returned and the loop was drained, no worker post after that return; deadlock/horizon = violation"
-                   % (len(POOL + WT), bp, ba, bt),
+                   "a worker reaches the loop only through runInLoop (run() resolves to the loop-thread-only runNext() while the loop is not draining), bodies <= max, nothing runs or starts and no thread other than main is alive once cleanup()/destructor returned and the loop was drained, no worker post after that return; deadlock/horizon = violation"
+                   % (len(POOL + WT + REAL), bp, ba, bt),
               assumptions=["sync points = pthread mutex/cond/create/join (cpp-tbox uses no atomics here)",
-                           "FakeLoop stands in for the event loop (runInLoop = locked queue drained on the main thread); two instances where a task names its own loop",
+                           "a model loop stands in for the event loop except in scenarios 200/201 (runInLoop = locked queue drained on the main thread, runNext = unlocked loop-thread-only queue, run = runNext unless the loop is draining and the caller is foreign - the contract of CommonLoop); two instances where a task names its own loop",
                            "a task picked but not yet started when cleanup begins may still run (DESIGN 1.7); what is demanded is that nothing starts after cleanup returned",
                            "priorities outside [-2,2] are only submitted in an order for which clamping and raw ordering give the same pick order",
                            "the per-scheduling-point pick-order hook reads the waiting queues of the implementation and is compiled out of the TSan build; the start-order oracles in single-worker configurations do not depend on it"])
